@@ -15,6 +15,7 @@ type scratchInfo struct {
 	mod        map[string]bool
 	oldTouched map[string]bool
 	n0         int
+	all        bool // the body calls something with "modifies anything"
 }
 
 type scriptSnap struct {
@@ -191,6 +192,14 @@ func (x *Exec) loopInvTerms(fr *Frame, li *loopInfo, phiVals map[*ssa.Phi]Val, s
 
 func (x *Exec) loopEnv(fr *Frame, li *loopInfo, phiVals map[*ssa.Phi]Val, st *State) *SpecEnv {
 	env := x.baseEnv(fr, st)
+	// address-taken locals are visible by their source name (value = the variable's address; x.f reads through it)
+	for v, val := range fr.env {
+		if a, ok := v.(*ssa.Alloc); ok && a.Comment != "" {
+			if _, taken := env.vars[a.Comment]; !taken {
+				env.vars[a.Comment] = val
+			}
+		}
+	}
 	for phi, v := range phiVals {
 		if phi.Comment != "" {
 			env.vars[phi.Comment] = v
@@ -230,6 +239,7 @@ func (x *Exec) enterLoop(fr *Frame, b *ssa.BasicBlock, li *loopInfo, ins []edgeS
 	}
 	// 2. find the write set by scratch runs to a fixpoint
 	w := map[string]bool{}
+	wAll := false
 	if fr.scratchDepth < 3 {
 		for iter := 0; iter < 6; iter++ {
 			snap := x.snap()
@@ -240,6 +250,9 @@ func (x *Exec) enterLoop(fr *Frame, b *ssa.BasicBlock, li *loopInfo, ins []edgeS
 			}
 			nrets := len(fr.rets)
 			ndef := len(fr.deferred)
+			if wAll {
+				x.havocAll()
+			}
 			x.havocLoop(fr, b, w)
 			si := &scratchInfo{li: li, base: map[string]*Term{}, mod: map[string]bool{}, oldTouched: map[string]bool{}, n0: x.allocN}
 			for k, v := range x.st.heap {
@@ -259,6 +272,10 @@ func (x *Exec) enterLoop(fr *Frame, b *ssa.BasicBlock, li *loopInfo, ins []edgeS
 			fr.rets = fr.rets[:nrets]
 			fr.deferred = fr.deferred[:ndef]
 			grew := false
+			if si.all && !wAll {
+				wAll = true
+				grew = true
+			}
 			for k := range si.mod {
 				if !si.oldTouched[k] {
 					continue // only objects allocated inside the loop are written: nothing visible at the head changes
@@ -289,6 +306,9 @@ func (x *Exec) enterLoop(fr *Frame, b *ssa.BasicBlock, li *loopInfo, ins []edgeS
 		}
 	}
 	// 3. havoc and assume the invariant
+	if wAll {
+		x.havocAll()
+	}
 	x.havocLoop(fr, b, w)
 	for _, k := range wk {
 		if g := x.frameGoal(k, x.st.heap[k]); g != nil {
